@@ -102,6 +102,11 @@ func c16Fixed() []c16Case {
 			"card.vuego": `<div class="card"><slot>FB</slot></div>`}, "p.vuego", map[string]int{"M1": 1, "M2": 3}},
 		{"once-element-in-named-slot-twice", map[string]string{"p.vuego": `<template include="two.vuego"><template #a><i v-once>M1</i><b>M2</b></template></template>`,
 			"two.vuego": `<div><slot name="a">FA</slot><hr><slot name="a">FA2</slot></div>`}, "p.vuego", map[string]int{"M1": 1, "M2": 2}},
+		// v-once elements in the slot content a PAGE hands to its layout: used by the layout itself in a loop, by a component the layout includes,
+		// twice; two DIFFERENT marked elements in that content do not suppress one another
+		{"once-in-page-slot-layout-loop", map[string]string{"p.vuego": "---\nlayout: main\n---\n<template #row><i v-once>M1</i><b v-once>M2</b><u>M3</u></template><p>M4</p>", "layouts/main.vuego": `<ul><li v-for="x in items"><slot name="row"></slot></li></ul>`}, "p.vuego", map[string]int{"M1": 1, "M2": 1, "M3": 3, "M4": 0}},
+		{"once-in-page-slot-component-loop", map[string]string{"p.vuego": "---\nlayout: main\n---\n<template #row><i v-once>M1</i><b v-once>M2</b><u>M3</u></template>", "layouts/main.vuego": `<template include="list.vuego"></template><template include="list.vuego"></template>`, "list.vuego": `<ul><li v-for="x in items"><slot name="row"></slot></li></ul>`}, "p.vuego", map[string]int{"M1": 1, "M2": 1, "M3": 6}},
+		{"once-in-page-slot-twice", map[string]string{"p.vuego": "---\nlayout: main\n---\n<template #head><i v-once>M1</i><s>M2</s></template>", "layouts/main.vuego": `<header><slot name="head"></slot><slot name="head"></slot></header>`}, "p.vuego", map[string]int{"M1": 1, "M2": 2}},
 		// the same component in more than one layer of a layout chain: the rule applies to the page and to each layout separately
 		{"component-in-page-and-layout", map[string]string{"p.vuego": "---\nlayout: main\n---\n<template include=\"c.vuego\"></template><template include=\"c.vuego\"></template>", "layouts/main.vuego": `<aside><template include="c.vuego"></template><template include="c.vuego"></template></aside><div v-html="content"></div>`, "c.vuego": `<i v-once>M1</i><b>M2</b>`}, "p.vuego", map[string]int{"M1": 2, "M2": 4}},
 		{"component-in-two-layouts", map[string]string{"p.vuego": "---\nlayout: inner\n---\n<u>M3</u>", "layouts/inner.vuego": "---\nlayout: main\n---\n<template include=\"c.vuego\"></template><div v-html=\"content\"></div>", "layouts/main.vuego": `<template include="c.vuego"></template><template include="c.vuego"></template><div v-html="content"></div>`, "c.vuego": `<i v-once>M1</i><b>M2</b>`}, "p.vuego", map[string]int{"M1": 2, "M2": 3, "M3": 1}},
